@@ -6,7 +6,7 @@ PROPS = {
     'C01': dict(
         rules=[geo.geo_curv, geo.parity, kernel.row_rec, kernel.sib_grav, kernel.ker_consist,
                kernel.ker_skew,
-               incr.cs_rules, incr.cs_exact, rot.rot_series, rot.rot_exp, geo.wgs_const,
+               incr.cs_rules, incr.cs_exact, rot.rot_series, rot.rot_exp, rot.angle_range, geo.wgs_const,
                integrator.carrier, integrator.predict_eff, integrator.kernel_via,
                integrator.wa_forward],
         decided=['compiled gravity copy equals earth.gravity',
@@ -36,7 +36,7 @@ PROPS = {
                  'the first-order-rotation velocity integral (derived by polynomial integration)'],
         undecided=['order of accuracy on general (sinusoidal) signals (a limit statement)']),
     'C17': dict(
-        rules=[names.len_dispatch, rot.rot_series, rot.rot_exp, rot.euler_inv, rot.euler_conv, errmodel.es_first,
+        rules=[names.len_dispatch, rot.rot_series, rot.rot_exp, rot.euler_inv, rot.angle_range, rot.euler_conv, errmodel.es_first,
                geo.unit_const, lambda c: forms.form_agree(c, ('error_model', 'transform'), 2)],
         decided=['single triples and stacks are told apart by ndim, never by the length of the leading axis; no divisor of the closed-form rotation coefficients vanishes on its arm',
                  'small-angle arm is the Maclaurin truncation of the closed form and continuous '
@@ -121,7 +121,7 @@ PROPS = {
                    'second-order (lever/Earth-radius) terms of the position Jacobian']),
     'C02': dict(
         rules=[kernel.row_rec, integrator.buf_rules, integrator.carrier, integrator.carrier_sync,
-               integrator.predict_eff, integrator.last_row, integrator.kernel_via, rot.rot_exp],
+               integrator.predict_eff, integrator.last_row, integrator.kernel_via, rot.rot_exp, rot.angle_range],
         decided=['the rotation routine writes all nine entries of its output on every path (the '
                  'kernel re-uses its scratch matrices from one iteration to the next)',
                  'get_time / get_pva return the latest row',
@@ -316,7 +316,7 @@ PROPS = {
                    'shape errors of a call form (the values of the scalar and the stacked form '
                    'are decided: FORM-AGREE)']),
     'C05': dict(
-        rules=[rot.euler_inv, errmodel.es_inv, errmodel.es_first, errmodel.es_perturb,
+        rules=[rot.euler_inv, rot.angle_range, errmodel.es_inv, errmodel.es_first, errmodel.es_perturb,
                integrator.es_copy, integrator.es_2drows, geo.geo_perturb, geo.role_radii,
                geo.unit_const, lambda c: forms.form_agree(c, ('error_model',), 1),
                forms.form_agree_tables, diff.diff_wrap_cols],
